@@ -1,14 +1,21 @@
 #!/bin/bash
-# usage: seedrun.sh <patch> <check id>...  : apply the patch to /repo, run the quick checks, revert. prints DETECTED/MISSED per check
-p=$1; shift
+# usage: seedrun.sh <patch> <check id>...
+# Tries a seeded change against the quick checks without touching /repo or /verif's evidence: a scratch
+# worktree of /repo's HEAD gets the patch, vcheck builds from it (VERIF_REPO) and writes everything
+# under a scratch directory (VERIF_SCRATCH). Prints DETECTED/MISSED per check; removes both afterwards.
+p=$(readlink -f "$1"); shift
 cd /verif
-git -C /repo apply "$p" || { echo "APPLY-FAIL $p"; exit 2; }
+wt=/tmp/seedrun_wt.$$
+sc=/tmp/seedrun_out.$$
+git -C /repo worktree add --detach "$wt" HEAD >/dev/null 2>&1 || { echo "WORKTREE-FAIL"; exit 2; }
+cleanup() { git -C /repo worktree remove --force "$wt" >/dev/null 2>&1; rm -rf "$sc"; }
+trap cleanup EXIT
+git -C "$wt" apply "$p" || { echo "APPLY-FAIL $p"; exit 2; }
 for id in "$@"; do
-  out=$(timeout 1500 ./vcheck run "$id" --tier quick 2>&1); code=$?
+  out=$(VERIF_REPO="$wt" VERIF_SCRATCH="$sc" timeout 1500 ./vcheck run "$id" --tier quick 2>&1); code=$?
   if [ $code -eq 1 ] && echo "$out" | grep -q "^VIOLATION property=$id"; then
     echo "DETECTED $p by $id: $(echo "$out" | grep -m1 '  key=')"
   else
     echo "MISSED $p by $id (exit $code): $(echo "$out" | tail -2 | tr '\n' ' ')"
   fi
 done
-git -C /repo checkout -- . ; git -C /repo clean -fdq
